@@ -379,6 +379,10 @@ class C06(HistoryProperty):
                             src_names = self._dataset_names(spec, [m["src"]])
                             par_names = self._dataset_names(spec, gen._fn_children(m["fn"]))
                             # producing the input includes running the steps of the applies beneath the source
+                            # ... and what ALSO runs elsewhere in this evaluation (reachable from the root without passing through
+                            # this apply: a later step's parameter, a sibling argument) has no place in this apply's order
+                            elsewhere = self._dataset_names(spec, [op["node"]], without=m["id"]) if m["id"] != op["node"] else set()
+                            src_names, par_names = src_names - elsewhere, par_names - elsewhere
                             src_steps = self._step_names(spec, m["src"]) - self._all_step_names(spec, gen._fn_children(m["fn"]))
                             a = [j for j, ev in enumerate(cold.log.events) if ev[0] == "call" and ((ev[2] == "body" and ev[3] in src_names - par_names) or (ev[2] == "step" and ev[3] in src_steps))]
                             b = [j for j, ev in enumerate(cold.log.events) if ev[0] == "call" and ev[2] == "body" and ev[3] in par_names - src_names]
@@ -432,12 +436,14 @@ class C06(HistoryProperty):
         return names
 
     @staticmethod
-    def _dataset_names(spec, starts):
+    def _dataset_names(spec, starts, without=None):
         by = {n["id"]: n for n in spec["nodes"]}
         seen, names = set(), set()
         stack = list(starts)
         while stack:
             i = stack.pop()
+            if i == without:
+                continue
             if i in seen:
                 continue
             seen.add(i)
